@@ -23,11 +23,14 @@ def _object_init(*a, **k):
     return None
 
 
-def _static(cls, name):
+_MISSING = object()
+
+
+def _static(cls, name, default=None):
     try:
         return inspect.getattr_static(cls, name)
     except AttributeError:
-        return None
+        return default
 
 
 class CallMixin:
@@ -112,7 +115,11 @@ class CallMixin:
         if v.kind in ("list", "dict", "str", "set", "tuple") and v.cls is None:
             return [(st, BM(v, name))]
         if v.cls is not None:
-            d = _static(v.cls, name)
+            d = _static(v.cls, name, _MISSING)
+            if d is None and name not in self.instance_attrs(v.cls):
+                return [(st, PyC(None))]
+            if d is _MISSING:
+                d = None
             if isinstance(d, property):
                 return self.call_function(st, d.fget, [v], {}, node, selfcls=v.cls)
             if inspect.isfunction(d):
